@@ -180,6 +180,8 @@ def run_config(ctx, gm, rng, coll, cont_kind, cobj, rarrs, qarrs, E, threads, re
 	from gambit._cython.threads import omp_set_num_threads
 	n = len(rarrs)
 	fn = rng.choice(['array', 'matrix', 'matrix', 'pairwise'])
+	if run_config.Eself is None and fn == 'pairwise':
+		fn = 'matrix'       # large collections under the sanitizer: no all-pairs oracle
 	outk = rng.choice(['none', 'exact', 'canary', 'strided'])
 	omp_set_num_threads(threads)
 	w = dict(fn=fn, container=cont_kind, n=n, threads=threads, out=outk, tag=tag)
@@ -305,7 +307,8 @@ def run_shard(sh, ctx):
 			ctx.count('wide_queries_beyond_narrow_reference_range')
 		qarrs = [np.array(q, dtype=qdt) for q in queries]
 		smp = dict(n_refs=n, sizes=[len(s) for s in coll][:20], query_dtype=qdt, n_queries=len(qarrs))
-		for cont_kind in CONTAINERS:
+		big = n > 100
+		for cont_kind in (CONTAINERS if not big else ['sigarray', 'sigarray-view', 'hdf5']):
 			dt = rng.choice(M.DTYPES)
 			if cont_kind in ('pylist', 'hdf5', 'pylist-mixed', 'siglist-mixed') and n == 0:
 				continue  # SignatureList([]) without k-mer parameters cannot be built by a caller either
@@ -313,7 +316,7 @@ def run_shard(sh, ctx):
 			cobj, rarrs, closer = build_container(cont_kind, coll, dt, ctx, tag)
 			try:
 				E = oracle_matrix(gm, qarrs, rarrs)
-				run_config.Eself = oracle_matrix(gm, rarrs, rarrs)
+				run_config.Eself = None if big else oracle_matrix(gm, rarrs, rarrs)
 				ctx.count(f'container:{cont_kind}'); ctx.count(f'ref_dtype:{dt}'); ctx.count(f'query_dtype:{qdt}')
 				for k in range(max(sh['nconf'] // len(CONTAINERS), 4)):
 					threads = rng.choice([1, 2, 3, 4, 7, 8, 16, 16])
